@@ -35,6 +35,18 @@ HISTORY = {
     'C17-3': 'missed at first; C17 got the re-created-study scenario (same owner and id, changed declarations)',
     'C19-3': 'missed at first; C19 got budgets below one batch and just short of the pool sweep',
     'C19-4': 'missed at first; C19 got out-of-cube prior features',
+    'C12-4': 'missed at first (no route kept a policy object, and with it the supporter of the first request, alive across requests); C12 got the kept-alive policy route',
+    'C01-5': 'a concurrency change (StopTrial locks on the trial name): not visible to the sequential C01 check, caught by C04',
+    'C01-6': 'missed at first (malformed names were only garbage); generators got near-miss names (an existing trial name plus a suffix / another spelling of its id), which also exposed a genuine defect of the unchanged tree (fix b9e3a0a)',
+    'C04-5': 'found but at first filed under the known finding of the same RPC pair (id too coarse); known-finding ids now name what the deleted trial was; C04 also got a prefix with a pool of queued trials',
+    'C05-5': 'missed at first (kill points were statement boundaries only in the quick tier); C05 got a journal-mode probe on the live connection and a thin syscall-level kill slice in the quick tier',
+    'C05-6': 'not caught by C05 (its reference is the real servicer on a file, which shares the defect); caught by C07 (RAM vs SQL) through sibling study names that collide under LIKE',
+    'C06-5': 'would have been missed (exception texts were short ASCII); C06 got hostile exception texts (empty, kilobytes, multi-byte) before this seed was evaluated',
+    'C06-6': 'would have been missed (client probe accepted a normal return); the client probe now requires the failure to be reported, with text-less exceptions raised while the algorithm is built',
+    'C07-5': 'missed at first (needs check / rollback / re-check); C07 and C05 got the committed-equals-visible monitor (second connection to the file after every answered call) and C07 compares early-stopping answers and algorithm reach across backends',
+    'C08-5': 'caught; C08 also got bulky metadata values',
+    'C09-5': 'missed at first (conversions ran under TZ=UTC only); C09 shards now run under different process time zones',
+    'C10-5': 'caught by C10 (rollback by a refused update) and by the committed-equals-visible monitor of C07',
     'C01-1': 'a concurrency change: not visible to the sequential C01 check, caught by C04 (write monitor + serialisability)',
 }
 
